@@ -382,6 +382,15 @@ def run_check(prop, fn, tier, level="other", replay=None):
         return 2
     except Exception:  # noqa: BLE001
         traceback.print_exc()
+        if rep.findings:
+            print("NOTE analysis incomplete: internal error in the analyser (traceback above)")
+            rep.notes.append("analysis incomplete: internal error")
+            rep.floors = {}
+            try:
+                if rep.finish() == 1:
+                    return 1
+            except Exception:  # noqa: BLE001
+                pass
         print(f"ANALYSIS-ERROR property={prop}: internal error in the analyser (traceback "
               "above)")
         return 2
